@@ -172,14 +172,15 @@ theorem Stays.updCur {id : Nat} {s : NetState} (h : Stays id s) (f : Node → No
 
 /-! ### the client: what a successful `_request_address` has established -/
 
-/-- what the node knows when `_request_address` succeeded with address `a` -/
-structure JoinedWith (id : Nat) (carried : Option Nat) (a : Nat) : Prop where
+/-- what the node knows when `_request_address` succeeded with address `a`, ending in state `s'` -/
+structure JoinedWith (id : Nat) (carried : Option Nat) (a : Nat) (s' : NetState) : Prop where
   /-- the address came out of the acceptance test for some contact (or was carried over from an
       earlier contact of the same call, for which it had) -/
   accepted : (∃ contact s1, Accepted contact a s1 ∧ (curNode s1).nodeId = id) ∨ carried = some a
-  /-- after `_begin(a)`, a `lookup_node_id(a)` — the double check — returned the node's own ID -/
-  confirmed : ∃ s2 s3, Stays id s2 ∧ (curNode s2).a.addr = a ∧
-    nexec (meshLookupNodeId (some (a : Int))) s2 = (.ok (id : Int), s3)
+  /-- the final state `s'` is the one in which a `lookup_node_id(a)` — the double check, made by the
+      node with address `a` — returned the node's own ID: it is the last thing the call did -/
+  confirmed : ∃ s2, Stays id s2 ∧ (curNode s2).a.addr = a ∧
+    nexec (meshLookupNodeId (some (a : Int))) s2 = (.ok (id : Int), s')
 
 theorem responseWait_accepts_id (contact deadline : Nat) (id : Nat) :
     ∀ fuel carried s v s', Stays id s →
@@ -227,7 +228,7 @@ theorem requestLoop_cons (contact : Nat) (rest : List Nat) (carried : Option Nat
     returned the node's own ID. -/
 theorem requestLoop_true (id : Nat) : ∀ contacts carried s s', Stays id s →
     nexec (requestLoop contacts carried) s = (.ok true, s') →
-    Stays id s' ∧ JoinedWith id carried (curNode s').a.addr := by
+    Stays id s' ∧ JoinedWith id carried (curNode s').a.addr s' := by
   intro contacts
   induction contacts with
   | nil =>
@@ -302,7 +303,7 @@ theorem requestLoop_true (id : Nat) : ∀ contacts carried s s', Stays id s →
               by_cases hv1 : v1 = (id : Int)
               · simp only [hv1, ↓reduceIte] at h
                 cases h
-                exact ⟨hs4, ⟨by rw [ha4]; exact hacc', ⟨s3, _, hs3, haddr3.trans ha4.symm, by rw [ha4, hl1, hv1]⟩⟩⟩
+                exact ⟨hs4, ⟨by rw [ha4]; exact hacc', ⟨s3, hs3, haddr3.trans ha4.symm, by rw [ha4, hl1, hv1]⟩⟩⟩
               · simp only [hv1, ↓reduceIte] at h
                 -- second double check
                 rcases hl2 : nexec (meshLookupNodeId (some (a : Int))) s4 with ⟨r5, s5⟩
@@ -322,7 +323,7 @@ theorem requestLoop_true (id : Nat) : ∀ contacts carried s s', Stays id s →
                   by_cases hv2 : v2 = (id : Int)
                   · simp only [hv2, ↓reduceIte] at h
                     cases h
-                    exact ⟨hs5, ⟨by rw [ha5]; exact hacc', ⟨s4, _, hs4, ha4.trans ha5.symm, by rw [ha5, hl2, hv2]⟩⟩⟩
+                    exact ⟨hs5, ⟨by rw [ha5]; exact hacc', ⟨s4, hs4, ha4.trans ha5.symm, by rw [ha5, hl2, hv2]⟩⟩⟩
                   · simp only [hv2, ↓reduceIte] at h
                     rcases hb2 : nexec (begin NETWORK_DEFAULT_ADDR) s5 with ⟨r6, s6⟩
                     rw [hb2] at h
@@ -349,7 +350,7 @@ theorem requestLoop_true (id : Nat) : ∀ contacts carried s s', Stays id s →
 
 theorem requestAddress_true (id level : Nat) (s s' : NetState) (hs : Stays id s)
     (h : nexec (requestAddress level) s = (.ok true, s')) :
-    Stays id s' ∧ JoinedWith id none (curNode s').a.addr := by
+    Stays id s' ∧ JoinedWith id none (curNode s').a.addr s' := by
   unfold requestAddress at h
   simp only [nexec_bind] at h
   have hs1 := hs.step (m := makeContact level) (fun s0 g0 => makeContact_id g0 _)
@@ -433,7 +434,7 @@ theorem renewLoopG_some (req : Nat → NetM Bool) (P : NetState → Prop)
 
 theorem renewLoop_some (id endTimer : Nat) (f total count : Nat) (s : NetState) (a : Nat) (s' : NetState)
     (hs : Stays id s) (h : nexec (renewLoop endTimer f total count) s = (.ok (some a), s')) :
-    Stays id s' ∧ (curNode s').a.addr = a ∧ JoinedWith id none a := by
+    Stays id s' ∧ (curNode s').a.addr = a ∧ JoinedWith id none a s' := by
   rw [renewLoop_eq] at h
   obtain ⟨c, s1, hs1, hr, ha⟩ := renewLoopG_some requestAddress (Stays id)
     (fun c s hs => hs.step (m := requestAddress c) (fun s0 g0 => requestAddress_id g0 _))
@@ -456,7 +457,7 @@ theorem meshRenew_eq (timeoutMs : Nat) : meshRenew timeoutMs = (do
 
 theorem renewTail_some (id fuel timeoutMs : Nat) (s : NetState) (a : Nat) (s' : NetState) (hs : Stays id s)
     (h : nexec (renewTail fuel timeoutMs) s = (.ok (some a), s')) :
-    Stays id s' ∧ (curNode s').a.addr = a ∧ JoinedWith id none a := by
+    Stays id s' ∧ (curNode s').a.addr = a ∧ JoinedWith id none a s' := by
   unfold renewTail at h
   simp only [nexec_bind, nexec_getNode, ne_eq, ite_not, nexec_ite] at h
   by_cases hd : (curNode s).a.addr = NETWORK_DEFAULT_ADDR
@@ -481,7 +482,7 @@ theorem renewTail_some (id fuel timeoutMs : Nat) (s : NetState) (a : Nat) (s' : 
 theorem meshRenew_some (id timeoutMs : Nat) (s : NetState) (a : Nat) (s' : NetState) (hs : Stays id s)
     (hnm : ¬ ((curNode s).kind = .meshMaster ∧ (curNode s).nodeId = 0))
     (h : nexec (meshRenew timeoutMs) s = (.ok (some a), s')) :
-    Stays id s' ∧ (curNode s').a.addr = a ∧ JoinedWith id none a := by
+    Stays id s' ∧ (curNode s').a.addr = a ∧ JoinedWith id none a s' := by
   rw [meshRenew_eq] at h
   simp only [nexec_bind, nexec_getNode, hnm, ↓reduceIte] at h
   -- `if self._rf24.available(): self.update()`
